@@ -5,10 +5,11 @@ import os, sys, random, math
 from fractions import Fraction
 import vlib
 
-LEAN_TARGETS = ['CvxVerif.Props.C18']
-MODEL_FILES = ['CvxVerif.Model.MatCheck']
+LEAN_TARGETS = ['CvxVerif.Props.C18', 'CvxVerif.Props.C18Quick']
+MODEL_FILES = ['CvxVerif.Model.MatCheck', 'CvxVerif.Gen.LapackWrap']
 LEVEL = 'proof'
-TRUSTED = ['the numerical routines are the external LAPACK (OpenBLAS build): nothing about their code is proved',
+TRUSTED = ['translator tools/translate/cwrap2lean.py (argument checks and early returns of the lapack.c wrappers -> Gen/LapackWrap.lean; used by the quick-return theorems of the Q generators)',
+           'the numerical routines are the external LAPACK (OpenBLAS build): nothing about their code is proved',
            'exact matrix checker lean/CvxVerif/Model/MatCheck.lean (products, transposes, Frobenius norms over the rationals); complex matrices are sent in their '
            'real 2n x 2n embedding', 'the harness: construction of well-conditioned / exactly singular inputs, band-storage conversions, tolerance 1e-9 relative to the norms of the factors']
 ASSUMPTIONS = ['backward stability is judged as  ||residual||_F <= 1e-9 * ||A||_F * ||X||_F  on well-conditioned inputs (orders 0..5): a fixed relative bound, not the n*eps bound of the LAPACK error analysis',
@@ -16,6 +17,13 @@ ASSUMPTIONS = ['backward stability is judged as  ||residual||_F <= 1e-9 * ||A||_
                'syev syevd syevr heev heevd heevr gesvd gesdd gees gbsv gbtrf gbtrs gtsv ptsv pbsv pbtrf pbtrs tbtrs']
 
 TOL = Fraction(1, 10**9)
+
+def translate(ctx):
+    sys.path.insert(0, os.path.join(vlib.VERIF, 'tools', 'translate'))
+    try:
+        import cwrap2lean; cwrap2lean.gen_lapack()
+    except Exception as e: return ['cwrap2lean.gen_lapack: %s: %s' % (type(e).__name__, e)]
+    return []
 
 def frs(x):
     f = Fraction(x); return str(f.numerator) if f.denominator == 1 else '%d/%d' % (f.numerator, f.denominator)
@@ -431,6 +439,27 @@ def correspond(ctx):
                 dg = [abs(R_[i][i]) for i in range(r_)]
                 if any(dg[i] < dg[i + 1] * (1 - 1e-9) for i in range(r_ - 1)): viol('geqp3-diagonal', 'geqp3: |R[i,i]| is not non-increasing: %r' % dg, dict(desc0, A=list(G), m=m, n=nn))
         except Exception as e: viol('raises-on-valid:geqp3', 'geqp3 raised %s (%s)' % (type(e).__name__, e), dict(desc0, A=list(G), m=m, n=nn))
+        # orgqr / ungqr / orglq / unglq with fewer reflectors than columns (rows), down to none: Q = H_1 ... H_k is then the identity on the remaining
+        # part - in particular with k = 0 (empty tau: the Q of a factorisation of an m x 0 matrix) the array is overwritten by columns of I
+        m = rng.randint(1, 5); nn = rng.randint(1, m)
+        G = rand(m, nn, tc); QR_ = +G; tau = matrix(0.0, (nn, 1), tc)
+        try:
+            lapack.geqrf(QR_, tau)
+            gen = lapack.orgqr if tc == 'd' else lapack.ungqr
+            Qfull = +QR_; gen(Qfull, tau)
+            k_ = 0 if it % 3 == 0 else rng.randint(0, nn)
+            Qk = +QR_; gen(Qk, tau, k=k_) if rng.random() < 0.5 or k_ == nn else gen(Qk, tau[:k_] if k_ else matrix(0.0, (0, 1), tc))
+            Qk_ = rows(Qk); d_ = dict(desc0, A=list(G), m=m, n=nn, k=k_)
+            chk('orgqr-k-orth', dist(mm(hh(Qk_), Qk_), ident(nn)), 1.0, 'orgqr/ungqr with k = %d of %d reflectors: ||Q^H Q - I||' % (k_, nn), d_)
+            if k_ == 0: chk('orgqr-k0', dist(Qk_, [[1.0 + 0j if i == j else 0j for j in range(nn)] for i in range(m)]), 1.0, 'orgqr/ungqr with no reflectors: ||Q - I(:, :n)||', d_)
+            Ql = +G.T if tc == 'd' else +G.H          # nn x m, nn <= m
+            taul = matrix(0.0, (nn, 1), tc); lapack.gelqf(Ql, taul)
+            genl = lapack.orglq if tc == 'd' else lapack.unglq
+            Qlk = +Ql; genl(Qlk, taul, k=k_) if rng.random() < 0.5 or k_ == nn else genl(Qlk, taul[:k_] if k_ else matrix(0.0, (0, 1), tc))
+            Qlk_ = rows(Qlk)
+            chk('orglq-k-orth', dist(mm(Qlk_, hh(Qlk_)), ident(nn)), 1.0, 'orglq/unglq with k = %d of %d reflectors: ||Q Q^H - I||' % (k_, nn), d_)
+            if k_ == 0: chk('orglq-k0', dist(Qlk_, [[1.0 + 0j if i == j else 0j for j in range(m)] for i in range(nn)]), 1.0, 'orglq/unglq with no reflectors: ||Q - I(:m, :)||', d_)
+        except Exception as e: viol('raises-on-valid:orgqr-k', 'orgqr / orglq with k reflectors raised %s (%s)' % (type(e).__name__, e), dict(desc0, A=list(G), m=m, n=nn))
         # gelqf + ormlq / unmlq: the full Q (n x n) applied to the identity; A = [L 0] Q
         m = rng.randint(1, 4); nn = rng.randint(m, 5)
         G = rand(m, nn, tc); Lq = +G; tau = matrix(0.0, (m, 1), tc)
